@@ -30,6 +30,7 @@ Definition qc_round8 (x : Qc) : Qc :=
   c_two := Q2Qc 2; c_001 := Q2Qc (1 # 100);
   c_dist_a := Q2Qc (- 15 # 100); c_dist_b := Q2Qc (3 # 10);
   c_maxfloat := Q2Qc (inject_Z (2 ^ 1024 - 2 ^ 971));
+  c_tol_abs := Q2Qc (15 # 1000000000); c_tol_rel := Q2Qc (1 # 1000000000);
   nsame := qc_eqb;
 |}.
 
@@ -55,3 +56,6 @@ Next Obligation.
   - destruct (Qeq_bool x y) eqn:E; [|reflexivity]. apply Qeq_bool_iff in E.
     assert (Qle_bool x y = true) by (apply Qle_bool_iff; rewrite E; apply Qle_refl). congruence.
 Qed.
+
+Next Obligation. unfold qc_eqb. apply Qeq_bool_iff. reflexivity. Qed.
+Next Obligation. unfold qc_eqb in H. apply Qeq_bool_iff in H. now apply Qc_is_canon. Qed.
